@@ -4,7 +4,9 @@ import (
 	"bytes"
 	"encoding/json"
 	"fmt"
+	"github.com/zmap/zlint/v3/formattedoutput"
 	"math/rand"
+	"os"
 	"reflect"
 	"regexp"
 	"strings"
@@ -110,6 +112,19 @@ func cmdCodec(args []string) {
 	parseFlags(args)
 	rng := rand.New(rand.NewSource(seed))
 	w := ev.Create(out("codec.ndjson"))
+	// a process that prints summaries (the code behind -summary / -longSummary) before it encodes and decodes
+	if devnull, err := os.OpenFile(os.DevNull, os.O_WRONLY, 0); err == nil {
+		saved := os.Stdout
+		os.Stdout = devnull
+		func() {
+			defer func() { recover() }()
+			rs := &zlint.ResultSet{Version: 3, Results: map[string]*lint.LintResult{"e_x": {Status: lint.Error}, "w_y": {Status: lint.Warn}, "n_z": {Status: lint.Notice}, "e_p": {Status: lint.Pass}, "e_f": {Status: lint.Fatal}}}
+			formattedoutput.OutputSummary(rs, false)
+			formattedoutput.OutputSummary(rs, true)
+		}()
+		os.Stdout = saved
+		devnull.Close()
+	}
 	for s := -1; s <= 9; s++ {
 		st := lint.LintStatus(s)
 		b, err := json.Marshal(st)
